@@ -98,6 +98,33 @@ def rand_decimals(ia: int, ib: int, off: int, top: bool) -> None:
     hlib.done()
 
 
+IB = [-5, -2, -1, 0, 1, 3, 2 ** 31 + 5, -2 ** 33]
+FR = [0.0, 0.25, 0.5, 0.75, 0.999999, 0.9999999999999999]
+
+
+def rand_ints_concrete(ia: int, ib: int, fi: int, off: int, top: bool) -> None:
+    """
+    pre: 0 <= ia < 8 and 0 <= ib < 8 and 0 <= fi < 6 and 0 <= off <= 2
+    post: True
+    """
+    # concrete host-int bounds (negative, zero, beyond 2**31) with concrete draws: whatever generator function the code uses
+    hlib.enter(locals())
+    ia, ib, fi, off = hlib.concrete(ia, 0, 7), hlib.concrete(ib, 0, 7), hlib.concrete(fi, 0, 5), hlib.concrete(off, 0, 2)
+    a, b = IB[ia], IB[ib]
+    hlib.assume(a <= b)
+    with hlib.native():
+        saved = _install([], FR[fi])
+        functions.random.near = (off, True if top else False)
+        try:
+            r = FUNCTIONS['rand'](a, b)
+        finally:
+            _restore(saved)
+        v = r.arg if isinstance(r, DecStub) else r
+        ok = isinstance(v, (int, RealDecimal)) and v == int(v) and a <= v <= b
+    assert ok, "rand(%d, %d) returned %r" % (a, b, v)
+    hlib.done()
+
+
 def rand_choice(l: List[int], draw: int) -> None:
     """
     pre: 1 <= len(l) <= 4
@@ -119,8 +146,17 @@ class _Obj:
     def __init__(self, i):
         self.i = i
 
+    def __eq__(self, other):
+        return EQ_ALL and isinstance(other, _Obj) or self is other
+
+    def __hash__(self):
+        return 0 if EQ_ALL else id(self)
+
     def __repr__(self):
         return "o%d" % self.i
+
+
+EQ_ALL = False          # when set, all _Obj compare equal (like 1 / True / Decimal('1.0')) but stay distinguishable
 
 
 def shuffle_perm(n: int, d1: int, d2: int, d3: int) -> None:
@@ -129,6 +165,8 @@ def shuffle_perm(n: int, d1: int, d2: int, d3: int) -> None:
     post: True
     """
     hlib.enter(locals())
+    global EQ_ALL
+    EQ_ALL = bool(hlib.PARAM and hlib.PARAM.get("eq_all"))
     l = [_Obj(i) for i in range(n)]
     before = list(l)
     saved = _install([d1, d2, d3], 0.0)
@@ -137,8 +175,8 @@ def shuffle_perm(n: int, d1: int, d2: int, d3: int) -> None:
     finally:
         _restore(saved)
     assert isinstance(r, list) and r is not l, "shuffle did not return a new list"
-    assert l == before, "shuffle changed its argument"
-    assert len(r) == len(before) and sorted(x.i for x in r) == list(range(n)), "shuffle result is not a permutation of the argument"
+    assert len(l) == len(before) and all(x is y for x, y in zip(l, before)), "shuffle changed its argument"
+    assert len(r) == len(before) and sorted(x.i for x in r) == list(range(n)), "shuffle result is not a permutation of the argument (as objects, not just as values)"
     hlib.done()
 
 
